@@ -556,18 +556,26 @@ func nilOnErrorTrie(p *Program, f *ssa.Function) string {
 	return ""
 }
 
-// checkOrder verifies the adjacent-pair order check of the construction function.
-func checkOrder(p *Program, r *Report, F *ssa.Function) {
-	var keys *ssa.Parameter
-	for _, prm := range F.Params {
+type orderCmp struct {
+	fn      *ssa.Function
+	keys    *ssa.Parameter
+	iff     *ssa.If
+	a, b    *term // compares keys[a] (must be smaller) with keys[b]
+	badSucc int
+	e       *evaluator
+}
+
+func stringSliceParam(f *ssa.Function) *ssa.Parameter {
+	for _, prm := range f.Params {
 		if sl, ok := prm.Type().Underlying().(*types.Slice); ok && isStringType(sl.Elem()) {
-			keys = prm
+			return prm
 		}
 	}
-	if keys == nil {
-		r.Unk("order check in "+shortFn(F), p.Pos(F.Pos()), "no []string parameter")
-		return
-	}
+	return nil
+}
+
+// findOrderCmp finds the comparison of two elements of keys in fn.
+func findOrderCmp(p *Program, fn *ssa.Function, keys *ssa.Parameter) *orderCmp {
 	e := newEval(p)
 	keyElem := func(v ssa.Value) (*term, bool) {
 		ld, ok := deref(v)
@@ -580,13 +588,7 @@ func checkOrder(p *Program, r *Report, F *ssa.Function) {
 		}
 		return e.eval(ia.Index), true
 	}
-	type cmpInfo struct {
-		iff     *ssa.If
-		a, b    *term // compares keys[a] (left, must be smaller) with keys[b]
-		badSucc int
-	}
-	var found *cmpInfo
-	for _, blk := range F.Blocks {
+	for _, blk := range fn.Blocks {
 		iff, ok := lastInstr(blk).(*ssa.If)
 		if !ok {
 			continue
@@ -610,16 +612,15 @@ func checkOrder(p *Program, r *Report, F *ssa.Function) {
 		if !okx || !oky {
 			continue
 		}
-		ci := &cmpInfo{iff: iff}
-		// normalise to "bad iff keys[a] >= keys[b]"
+		ci := &orderCmp{fn: fn, keys: keys, iff: iff, e: e}
 		switch bo.Op {
 		case token.GEQ: // x >= y bad
 			ci.a, ci.b, ci.badSucc = x, y, 0
-		case token.LEQ: // x <= y  == y >= x bad
+		case token.LEQ: // x <= y  ==  y >= x bad
 			ci.a, ci.b, ci.badSucc = y, x, 0
 		case token.LSS: // x < y good
 			ci.a, ci.b, ci.badSucc = x, y, 1
-		case token.GTR: // x > y == y < x good
+		case token.GTR: // x > y  ==  y < x good
 			ci.a, ci.b, ci.badSucc = y, x, 1
 		default:
 			continue
@@ -627,64 +628,253 @@ func checkOrder(p *Program, r *Report, F *ssa.Function) {
 		if negated {
 			ci.badSucc = 1 - ci.badSucc
 		}
-		found = ci
-		break
+		return ci
 	}
-	if found == nil {
-		r.Bad("order check in "+shortFn(F), p.Pos(F.Pos()), "no comparison of two elements of the key list: out-of-order input is not rejected")
+	return nil
+}
+
+// triCond evaluates "v op k" for v in [lo,hi]: 1 always true, 0 always false, -1 unknown.
+func triCond(op token.Token, lo, hi, k int64) int {
+	t := func(b bool) int {
+		if b {
+			return 1
+		}
+		return 0
+	}
+	switch op {
+	case token.GEQ:
+		if lo >= k {
+			return 1
+		}
+		if hi < k {
+			return 0
+		}
+	case token.GTR:
+		if lo > k {
+			return 1
+		}
+		if hi <= k {
+			return 0
+		}
+	case token.LSS:
+		if hi < k {
+			return 1
+		}
+		if lo >= k {
+			return 0
+		}
+	case token.LEQ:
+		if hi <= k {
+			return 1
+		}
+		if lo > k {
+			return 0
+		}
+	case token.NEQ:
+		if k < lo || k > hi {
+			return 1
+		}
+		if lo == hi {
+			return t(lo != k)
+		}
+	case token.EQL:
+		if k < lo || k > hi {
+			return 0
+		}
+		if lo == hi {
+			return t(lo == k)
+		}
+	}
+	return -1
+}
+
+// checkOrder verifies the adjacent-pair order check of the construction
+// function; the check may be made in the function itself or in one helper it
+// calls with the key list.
+func checkOrder(p *Program, r *Report, F *ssa.Function) {
+	keys := stringSliceParam(F)
+	if keys == nil {
+		r.Unk("order check in "+shortFn(F), p.Pos(F.Pos()), "no []string parameter")
 		return
 	}
-	pos := p.Pos(found.iff.Cond.Pos())
-	// adjacency
-	adj := O("add", found.a, K(1)).String() == found.b.String()
-	r.Check(adj, "order check compares adjacent keys", pos, "keys[a] >= keys[a+1] with a = "+found.a.String(),
-		fmt.Sprintf("compares keys[%s] with keys[%s]: not adjacent pairs (a, a+1), or with the strictness/direction reversed", found.a, found.b))
-	// error branch
-	bad := found.iff.Block().Succs[found.badSucc]
-	ret, isRet := lastInstr(bad).(*ssa.Return)
-	okErr := false
-	if isRet && len(ret.Results) == 2 && isNilConst(ret.Results[0]) {
-		okErr = derivedFromGlobal(ret.Results[1], "ErrKeyOutOfOrder", 0)
-	}
-	r.Check(okErr, "order violation returns (nil, ErrKeyOutOfOrder)", pos, "the failing branch returns nil and an error wrapping ErrKeyOutOfOrder", "the failing branch does not return (nil, error derived from ErrKeyOutOfOrder)")
-	// loop coverage
-	cover := orderLoopCoverage(p, e, F, found.iff, found.a, keys)
-	r.Check(cover == "", "order check covers all adjacent pairs", pos, "a runs from 0 while a+1 < len(keys), step 1, and the comparison is the first thing in the loop body", cover)
-	// gate: the loop exit dominates consumers of keys
-	gate := ""
-	header := loopHeaderOf(found.iff.Block())
-	if header == nil {
-		gate = "cannot find the loop of the order check"
-	} else {
-		hi, _ := lastInstr(header).(*ssa.If)
-		var exit *ssa.BasicBlock
-		if hi != nil {
-			for _, s := range header.Succs {
-				if !reachableFrom(s, func(b *ssa.BasicBlock) bool { return b == header })[found.iff.Block()] {
-					exit = s
-				}
+	oc := findOrderCmp(p, F, keys)
+	var helperCall *ssa.Call
+	if oc == nil {
+		for _, c := range callsIn(F) {
+			call, ok := c.(*ssa.Call)
+			if !ok {
+				continue
 			}
-		}
-		if exit == nil {
-			gate = "cannot find the exit of the order-check loop"
-		} else {
-			for _, c := range callsIn(F) {
-				if _, isB := c.Common().Value.(*ssa.Builtin); isB {
-					continue
-				}
-				uses := false
-				for _, a := range c.Common().Args {
-					if a == keys {
-						uses = true
+			h := calleeOf(call)
+			if h == nil || !trieScope(h) || len(h.Blocks) == 0 {
+				continue
+			}
+			for i, a := range call.Call.Args {
+				if a == keys && i < len(h.Params) {
+					if hc := findOrderCmp(p, h, h.Params[i]); hc != nil {
+						oc = hc
+						helperCall = call
 					}
 				}
-				if uses && !(exit.Dominates(c.Block())) {
-					gate = "the keys are handed to " + c.Common().Value.Name() + " at " + p.Pos(c.Pos()) + " before the order check has completed"
-				}
 			}
 		}
 	}
-	r.Check(gate == "", "order check gates construction", pos, "every call that receives the key list is dominated by the loop's exit", gate)
+	if oc == nil {
+		r.Bad("order check in "+shortFn(F), p.Pos(F.Pos()), "no comparison of two elements of the key list (in the construction function or a helper it hands the keys to): out-of-order input is not rejected")
+		return
+	}
+	r.Func(shortFn(oc.fn))
+	pos := p.Pos(oc.iff.Cond.Pos())
+	adj := O("add", oc.a, K(1)).String() == oc.b.String()
+	r.Check(adj, "order check compares adjacent keys", pos, "keys[a] >= keys[a+1] with a = "+oc.a.String(),
+		fmt.Sprintf("compares keys[%s] with keys[%s]: not adjacent pairs (a, a+1), or with the strictness/direction reversed", oc.a, oc.b))
+	cover := orderLoopCoverage(p, oc.e, oc.fn, oc.iff, oc.a, oc.keys)
+	r.Check(cover == "", "order check covers all adjacent pairs", pos, "a runs from 0 while a+1 < len(keys), step 1, and the comparison is the first thing in the loop body", cover)
+
+	badBlk := oc.iff.Block().Succs[oc.badSucc]
+	header := loopHeaderOf(oc.iff.Block())
+	var loopExit *ssa.BasicBlock
+	if header != nil {
+		for _, s := range header.Succs {
+			if !reachableFrom(s, func(b *ssa.BasicBlock) bool { return b == header })[oc.iff.Block()] {
+				loopExit = s
+			}
+		}
+	}
+	var gateBlock *ssa.BasicBlock // in F: the block from which construction proceeds
+	errOK := false
+	errWhy := "the failing branch does not return (nil, error derived from ErrKeyOutOfOrder)"
+	if helperCall == nil {
+		if ret, isRet := lastInstr(badBlk).(*ssa.Return); isRet && len(ret.Results) == 2 && isNilConst(ret.Results[0]) {
+			errOK = derivedFromGlobal(ret.Results[1], "ErrKeyOutOfOrder", 0)
+		}
+		gateBlock = loopExit
+	} else {
+		// helper: the bad branch returns an indicator the caller turns into the error
+		h := oc.fn
+		badRet, isRet := lastInstr(badBlk).(*ssa.Return)
+		var okRets []*ssa.Return
+		for _, ret := range returnsOf(h) {
+			if ret != badRet {
+				okRets = append(okRets, ret)
+			}
+		}
+		if !isRet || len(okRets) == 0 || len(badRet.Results) == 0 {
+			errWhy = "the helper " + shortFn(h) + " does not report the violation by an early return"
+		} else {
+			// which result distinguishes? try each result index
+			for ri := range badRet.Results {
+				// bad value: constant, or the (non-negative) induction variable
+				var blo, bhi int64
+				if c, ok := constInt(badRet.Results[ri]); ok {
+					blo, bhi = c, c
+				} else if b, ok := constBool(badRet.Results[ri]); ok {
+					blo, bhi = 0, 0
+					if b {
+						blo, bhi = 1, 1
+					}
+				} else if isIntType(badRet.Results[ri].Type()) && containsTerm(oc.a, oc.e.eval(badRet.Results[ri])) || (isIntType(badRet.Results[ri].Type()) && containsTerm(oc.e.eval(badRet.Results[ri]), oc.a)) {
+					blo, bhi = 0, 1<<40
+				} else {
+					continue
+				}
+				allOK := true
+				var olo, ohi int64
+				for i, ret := range okRets {
+					var c int64
+					if x, ok := constInt(ret.Results[ri]); ok {
+						c = x
+					} else if b, ok := constBool(ret.Results[ri]); ok {
+						if b {
+							c = 1
+						}
+					} else {
+						allOK = false
+						break
+					}
+					if i == 0 || c < olo {
+						olo = c
+					}
+					if i == 0 || c > ohi {
+						ohi = c
+					}
+				}
+				if !allOK {
+					continue
+				}
+				// the caller's test on that result
+				var rv ssa.Value = helperCall
+				if len(badRet.Results) > 1 {
+					rv = nil
+					for _, ref := range *helperCall.Referrers() {
+						if ex, ok := ref.(*ssa.Extract); ok && ex.Index == ri {
+							rv = ex
+						}
+					}
+				}
+				if rv == nil {
+					continue
+				}
+				for _, ref := range *rv.Referrers() {
+					var iff *ssa.If
+					op := token.NEQ
+					var k int64
+					switch x := ref.(type) {
+					case *ssa.If: // bool result used directly: "r != false"
+						iff, k = x, 0
+					case *ssa.BinOp:
+						if c, ok := constInt(x.Y); ok && x.X == rv {
+							op, k = x.Op, c
+							for _, r2 := range *x.Referrers() {
+								if i2, ok := r2.(*ssa.If); ok {
+									iff = i2
+								}
+							}
+						}
+					}
+					if iff == nil {
+						continue
+					}
+					tb, to := triCond(op, blo, bhi, k), triCond(op, olo, ohi, k)
+					if tb < 0 || to < 0 || tb == to {
+						continue
+					}
+					errSucc := 0
+					if tb == 0 {
+						errSucc = 1
+					}
+					if ret, isRet := lastInstr(iff.Block().Succs[errSucc]).(*ssa.Return); isRet && len(ret.Results) == 2 && isNilConst(ret.Results[0]) && derivedFromGlobal(ret.Results[1], "ErrKeyOutOfOrder", 0) {
+						errOK = true
+						gateBlock = iff.Block().Succs[1-errSucc]
+					}
+				}
+			}
+			if !errOK {
+				errWhy = "the caller of " + shortFn(h) + " does not turn its violation indicator into (nil, error derived from ErrKeyOutOfOrder)"
+			}
+		}
+	}
+	r.Check(errOK, "order violation returns (nil, ErrKeyOutOfOrder)", pos, "the failing comparison leads to a return of nil and an error wrapping ErrKeyOutOfOrder", errWhy)
+	gate := ""
+	if gateBlock == nil {
+		gate = "cannot find the point from which construction proceeds after the order check"
+	} else {
+		for _, c := range callsIn(F) {
+			if _, isB := c.Common().Value.(*ssa.Builtin); isB || ssa.Instruction(c) == ssa.Instruction(helperCall) {
+				continue
+			}
+			uses := false
+			for _, a := range c.Common().Args {
+				if a == keys {
+					uses = true
+				}
+			}
+			if uses && !(gateBlock.Dominates(c.Block())) {
+				gate = "the keys are handed to " + c.Common().Value.Name() + " at " + p.Pos(c.Pos()) + " before the order check has completed"
+			}
+		}
+	}
+	r.Check(gate == "", "order check gates construction", pos, "every call that receives the key list is dominated by the successful completion of the check", gate)
 }
 
 func derivedFromGlobal(v ssa.Value, name string, d int) bool {
